@@ -181,6 +181,7 @@ func (vc *VC) callFunction(fn *ssa.Function, args []Val, bind []Val, st *State, 
 func (vc *VC) execFrom(fr *Frame, st *State, b *ssa.BasicBlock, idx int) []Outcome {
 	for {
 		if st.Infeasible() {
+			dbgf("infeasible state in %s block %d", fr.fn.Name(), b.Index)
 			return nil
 		}
 		if idx >= len(b.Instrs) {
@@ -194,6 +195,7 @@ func (vc *VC) execFrom(fr *Frame, st *State, b *ssa.BasicBlock, idx int) []Outco
 		switch x := ins.(type) {
 		case *ssa.If:
 			c := vc.val(fr, st, x.Cond).(Term)
+			dbgf("if in %s block %d cond %s", fr.fn.Name(), b.Index, truncate(c.E, 80))
 			if c.IsTrue() {
 				return vc.jump(fr, st, b, b.Succs[0])
 			}
@@ -211,7 +213,9 @@ func (vc *VC) execFrom(fr *Frame, st *State, b *ssa.BasicBlock, idx int) []Outco
 			st.Assume(c)
 			st2.Assume(Not(c))
 			out := vc.jump(fr, st, b, b.Succs[0])
+			n1 := len(out)
 			out = append(out, vc.jump(fr2, st2, b, b.Succs[1])...)
+			dbgf("if in %s block %d cond %s: %d + %d outcomes", fr.fn.Name(), b.Index, truncate(c.E, 60), n1, len(out)-n1)
 			return out
 		case *ssa.Jump:
 			return vc.jump(fr, st, b, b.Succs[0])
@@ -344,6 +348,7 @@ func (vc *VC) runDefers(fr *Frame, st *State, i int, panicking bool) []Outcome {
 
 // jump handles phis, loop cutting and unrolling bounds.
 func (vc *VC) jump(fr *Frame, st *State, from, to *ssa.BasicBlock) []Outcome {
+	dbgf("jump in %s: %d -> %d (dry=%d)", fr.fn.Name(), from.Index, to.Index, vc.dry)
 	if vc.dry > 0 {
 		for _, l := range vc.eng.dryStop {
 			if l.Fn == fr.fn && !l.Body[to] {
